@@ -32,8 +32,9 @@ J2 == ObjBody([DashLeaves EXCEPT !["v"] = "J2", !["a"] = "s1"])
 J3 == ObjBody([DashLeaves EXCEPT !["v"] = "J3", !["n"] = "{}", !["n.x"] = "s2"])
 R1 == RawBody(<<"R1">>)
 R2 == RawBody(<<"R2">>)
+J4 == ObjBody([DashLeaves EXCEPT !["v"] = "J4", !["n"] = "null"])
 JB == ObjBody([DashLeaves EXCEPT !["v"] = "JB", !["a"] = "big"])
-BodyOf(t) == CASE t = "JB" -> JB [] t = "J1" -> J1 [] t = "J2" -> J2 [] t = "J3" -> J3 [] t = "R1" -> R1 [] t = "R2" -> R2
+BodyOf(t) == CASE t = "JB" -> JB [] t = "J4" -> J4 [] t = "J1" -> J1 [] t = "J2" -> J2 [] t = "J3" -> J3 [] t = "R1" -> R1 [] t = "R2" -> R2
                [] OTHER -> NoBody
 ExpToks == {"0", "E1", "E2", "R1"}
 CasClasses == {"zero", "cur", "stale", "never"}
@@ -66,7 +67,7 @@ Flagged(a) == [a EXCEPT !.big = (a.big \/ a.sets = BigSets), !.badx = (a.sets = 
 (* All argument records of one operation (before CAS classes are resolved). *)
 ArgsFor(op) ==
     CASE op = "Set" ->
-           {WithBody([A0 EXCEPT !.exp = e, !.pres = p], b) : e \in ExpToks, p \in BOOLEAN, b \in {"J1", "J2", "J3"}}
+           {WithBody([A0 EXCEPT !.exp = e, !.pres = p], b) : e \in ExpToks, p \in BOOLEAN, b \in {"J1", "J2", "J3", "J4"}}
            \cup {WithBody([A0 EXCEPT !.exp = "E1"], "JB")}
       [] op = "SetRaw" ->
            {WithBody([A0 EXCEPT !.exp = e, !.pres = p], b) : e \in ExpToks, p \in BOOLEAN, b \in {"R1", "R2"}}
@@ -114,7 +115,7 @@ ArgsFor(op) ==
       [] op = "SetWithMeta" ->
            {WithBody([A0 EXCEPT !.exp = e, !.casc = c, !.newc = nc, !.sets = s, !.json = (b = "J1")], b) :
                e \in {"0", "E1"}, c \in CasClasses, nc \in {"hi", "mid", "low"}, s \in PlainSets \cup {NoSets},
-               b \in {"J1", "R1"}}
+               b \in {"J1", "R1", ""}}
       [] op = "DeleteWithMeta" ->
            {[A0 EXCEPT !.exp = e, !.casc = c, !.newc = nc, !.sets = s] :
                e \in {"0"}, c \in CasClasses, nc \in {"hi", "mid", "low"}, s \in PlainSets \cup {NoSets}}
